@@ -28,7 +28,16 @@ fn corpus_filter() {
             let (o, _) = outcome_of(r);
             let ms = t0.elapsed().as_millis();
             eprintln!("{:40} {:?} {}ms", c.name, o.class(), ms);
-            let small = match &o { Outcome::Ok { size, .. } => *size <= 60_000, _ => true };
+            let src2 = c.src.clone();
+            let specs2 = a.consts.clone();
+            let f2 = a.pub_fns.first().cloned().unwrap_or("main".into());
+            let t1 = std::time::Instant::now();
+            let (o2, _) = outcome_of(guarded(|| compile_src(&src2, &f2, build_consts(&specs2, &[], 0), Opts { register: true, dedup: false }, false)));
+            eprintln!("   nodedup {:?} {}ms", o2, t1.elapsed().as_millis());
+            let small = |o: &Outcome| match o { Outcome::Ok { size, .. } => *size <= 40_000, _ => true };
+            // one-off tool: the result (corpus/extracted.json) is committed, so using time here does
+            // not make any check timing-dependent
+            let small = small(&o) && small(&o2) && ms < 150 && t1.elapsed().as_millis() < 150;
             if small {
                 keep.push(c);
             }
@@ -215,6 +224,14 @@ fn main() {
         Some("corpus-filter") => corpus_filter(),
         Some("check") => std::process::exit(check(&args[2], args.get(3).map(|s| s.as_str()).unwrap_or("quick"))),
         Some("replay") => std::process::exit(replay(&args[2])),
+        Some("case") => {
+            // garble-sim case <property> <tier> <idx> : run one case in-process, print result
+            install_panic_hook();
+            let t0 = std::time::Instant::now();
+            let r = run_case_dispatch(&args[2], &args[3], seed_from_env(), args[4].parse().unwrap());
+            println!("{}", serde_json::to_string_pretty(&r).unwrap());
+            eprintln!("took {:?}", t0.elapsed());
+        }
         Some("worker") => {
             install_panic_hook();
             supervise::worker_main(&args[2..], &run_case_dispatch);
